@@ -65,31 +65,63 @@ func runC10(c *Ctx) {
 			c.Check("C10.T1", "validator-table:verdict-returned", foundOnly && callReq, pvV.Pos(), "Validate succeeds only for an action present in the table and only when the table's validation function succeeded")
 		}
 	}
-	ct, ck := tblKeys(apf)
+	cdv := c.dispatch(apf, func(p string) bool { return strings.Contains(p, ").GetAction(") })
+	var ck []string
+	for k := range cdv.arms {
+		ck = append(ck, unquote(k))
+	}
+	sort.Strings(ck)
 	c.Check("C10.T1", "validator-cases", eqStrs(vk, want), pvV.Pos(), fmt.Sprintf("patchvalidator.Validate cases %v", vk))
 	c.Check("C10.T1", "composer-cases", eqStrs(ck, want), apf.Pos(), fmt.Sprintf("composer dispatch cases %v", ck))
 	handlers := map[string]*ssa.Function{}
 	distinct := map[*ssa.Function]bool{}
 	okDistinct := true
-	for k, blk := range ct {
-		for _, cl := range callsIn(blk) {
-			if g := cl.Call.StaticCallee(); g != nil && inModule(g) {
-				handlers[unquote(k)] = g
-				if distinct[g] {
-					okDistinct = false
-				}
-				distinct[g] = true
-				// argument shape: (doc, value) or (value) for replace
-				a := cl.Call.Args
-				okArgs := (len(a) == 2 && c.Path(a[0], nil) == "$0" && strings.HasSuffix(c.Path(a[1], nil), ").GetValue($1)#0")) || (len(a) == 1 && strings.HasSuffix(c.Path(a[0], nil), ").GetValue($1)#0"))
-				c.Check("C10.T1", "composer:"+unquote(k)+":args", okArgs, cl.Pos(), "handler receives the working document and the patch's own value")
-				break
+	isVal := func(p string) bool { return strings.HasSuffix(p, ").GetValue($1)#0") }
+	for _, k := range ck {
+		a := cdv.arms[`"`+k+`"`]
+		for _, ac := range c.armCalls(cdv, a) {
+			g := ac.callee
+			if !inModule(g) {
+				continue
 			}
+			handlers[k] = g
+			if distinct[g] {
+				okDistinct = false
+			}
+			distinct[g] = true
+			// argument shape: (doc, value) or (value) for replace
+			okArgs := (len(ac.args) == 2 && ac.args[0] == "$0" && isVal(ac.args[1])) || (len(ac.args) == 1 && isVal(ac.args[0]))
+			// a literal wrapper in a table must hand the handler's results straight back
+			if ac.call != nil && a.fn != nil {
+				for _, r := range returnsOf(a.fn) {
+					for _, rv := range r.Results {
+						if ex, isEx := rv.(*ssa.Extract); !isEx || ex.Tuple != ssa.Value(ac.call) {
+							okArgs = false
+						}
+					}
+				}
+			}
+			c.Check("C10.T1", "composer:"+k+":args", okArgs, apf.Pos(), "handler receives the working document and the patch's own value")
+			break
 		}
 	}
-	c.Check("C10.T1", "composer:distinct-handlers", okDistinct && len(handlers) == 8, apf.Pos(), fmt.Sprintf("%d cases dispatch to %d distinct handlers", len(ct), len(distinct)))
+	c.Check("C10.T1", "composer:distinct-handlers", okDistinct && len(handlers) == 8, apf.Pos(), fmt.Sprintf("%d cases dispatch to %d distinct handlers", len(cdv.arms), len(distinct)))
 	// fall-through => error
-	{
+	if cdv.table {
+		foundOnly, callReq := c.tableGuards(cdv)
+		okRet := true
+		for _, r := range returnsOf(apf) {
+			if !maySucceed(r) {
+				continue
+			}
+			for i, rv := range r.Results {
+				if ex, isEx := rv.(*ssa.Extract); !isEx || ex.Tuple != ssa.Value(cdv.site) || ex.Index != i {
+					okRet = false
+				}
+			}
+		}
+		c.Check("C10.T1", "composer:unknown-action-error", foundOnly && callReq && okRet, apf.Pos(), "an action outside the table yields an error; the handler's results are returned unchanged")
+	} else {
 		cut := map[edge]bool{}
 		forEachInstr(apf, func(in ssa.Instruction) {
 			if bo, ok := in.(*ssa.BinOp); ok && bo.Op == token.EQL && strings.Contains(c.Path(bo.X, nil), ").GetAction(") {
@@ -163,7 +195,7 @@ func runC10(c *Ctx) {
 	if h := handlers["ietf-json-patch"]; h != nil {
 		t := ""
 		for _, r := range successReturns(h) {
-			t = c.Path(r.Results[0], nil)
+			t = c.InlPath(r.Results[0], nil)
 		}
 		ok := strings.HasPrefix(t, "document.FromBytes(") && strings.Contains(t, "json-patch") && strings.Contains(t, "(document.Document).Bytes($0)")
 		c.Check("C10.E1", "ietf-json-patch:library-output-reparsed", ok, h.Pos(), "result = "+t)
@@ -174,51 +206,79 @@ func runC10(c *Ctx) {
 
 	// ---- P1 left fold
 	ap := c.Method(pComposer, "DocumentComposer", "ApplyPatches")
-	dc := c.Fn(pComposer, "deepCopy")
-	if ap == nil || dc == nil {
-		c.Unresolved("C10.P1", "ApplyPatches / deepCopy")
+	if ap == nil {
+		c.Unresolved("C10.P1", "ApplyPatches")
 	} else {
 		c.Analysed(ap)
-		dcs := callsTo(ap, dc)
-		okCopy := len(dcs) == 1 && c.Path(dcs[0].Call.Args[0], nil) == "$1" && dcs[0].Block() == ap.Blocks[0]
-		c.Check("C10.P1", "fold:starts-from-deep-copy", okCopy, ap.Pos(), "ApplyPatches first deep-copies the document parameter")
 		aps := callsTo(ap, apf)
-		okFold := false
-		if len(aps) == 1 && len(dcs) == 1 {
+		okFold, okCopy := false, false
+		var copyFn *ssa.Function
+		if len(aps) == 1 {
 			a0 := aps[0].Call.Args[0]
 			phi, isPhi := a0.(*ssa.Phi)
-			if isPhi && len(phi.Edges) == 2 {
-				e := map[ssa.Value]bool{phi.Edges[0]: true, phi.Edges[1]: true}
-				if e[extractOf(dcs[0], 0)] && e[extractOf(aps[0], 0)] && c.Path(aps[0].Call.Args[1], nil) == "$2[ι]" && ascendingFromZero(aps[0].Call.Args[1]) {
-					okFold = true
-					for _, r := range successReturns(ap) {
-						if r.Results[0] != ssa.Value(phi) {
-							okFold = false
+			// the running result kept in a local cell (its address was handed to json.Unmarshal): loads and stores
+			// instead of a φ
+			if ld, isLd := a0.(*ssa.UnOp); isLd && ld.Op == token.MUL {
+				if al, isAl := ld.X.(*ssa.Alloc); isAl {
+					stepOnly := true
+					for _, r := range *al.Referrers() {
+						if st, isS := r.(*ssa.Store); isS && st.Addr == ssa.Value(al) {
+							if k, isK := st.Val.(*ssa.Const); isK && k.IsNil() {
+								continue
+							}
+							if st.Val != extractOf(aps[0], 0) {
+								stepOnly = false
+							}
+						}
+					}
+					if src, fn, ok := c.jsonRoundTripCell(ap, al); ok && src == "$1" && stepOnly {
+						okCopy, copyFn = true, fn
+					}
+					if stepOnly && c.Path(aps[0].Call.Args[1], nil) == "$2[ι]" && ascendingFromZero(aps[0].Call.Args[1]) {
+						okFold = true
+						for _, r := range successReturns(ap) {
+							if l2, isL2 := r.Results[0].(*ssa.UnOp); !isL2 || l2.X != ssa.Value(al) {
+								okFold = false
+							}
 						}
 					}
 				}
 			}
-		}
-		c.Check("C10.P1", "fold:threads-result-in-index-order", okFold, ap.Pos(), "one loop over the patches parameter in index order; each step receives the previous result; the last result is returned")
-		c.CheckGuardLoop("C10.P1", "fold:handler-error-aborts", ap, nil, callTo("applyPatch ok", apf))
-		// deepCopy = unmarshal(marshal(doc)) into a fresh value
-		t := normalize(c.SuccessTerm(dc, 0, nil)).String()
-		okDC := false
-		jsonU := c.ExtFn("encoding/json", "Unmarshal")
-		for _, u := range callsTo(dc, jsonU) {
-			if c.Path(u.Call.Args[0], nil) == "encoding/json.Marshal($0)#0" {
-				if mi, isMI := u.Call.Args[1].(*ssa.MakeInterface); isMI {
-					if al, isAl := mi.X.(*ssa.Alloc); isAl {
-						for _, r := range successReturns(dc) {
-							if ld, isLd := r.Results[0].(*ssa.UnOp); isLd && ld.X == ssa.Value(al) {
-								okDC = true
+			if isPhi && len(phi.Edges) == 2 {
+				// one edge is the previous step's result, the other the starting value: a JSON round trip of the document parameter
+				var start ssa.Value
+				n := 0
+				for _, e := range phi.Edges {
+					if e == extractOf(aps[0], 0) {
+						n++
+					} else {
+						start = e
+					}
+				}
+				if n == 1 && start != nil {
+					if src, fn, ok := c.jsonRoundTripOf(ap, start, nil, 0); ok && src == "$1" {
+						okCopy, copyFn = true, fn
+					}
+					if c.Path(aps[0].Call.Args[1], nil) == "$2[ι]" && ascendingFromZero(aps[0].Call.Args[1]) {
+						okFold = true
+						for _, r := range successReturns(ap) {
+							if r.Results[0] != ssa.Value(phi) {
+								okFold = false
 							}
 						}
 					}
 				}
 			}
 		}
-		c.Check("C10.P1", "deepCopy:json-round-trip", okDC, dc.Pos(), "deepCopy returns a value decoded from the JSON encoding of its argument ("+t+")")
+		c.Check("C10.P1", "fold:starts-from-deep-copy", okCopy, ap.Pos(), "the fold starts from a JSON round trip (json.Unmarshal of json.Marshal) of the document parameter, made in ApplyPatches or in a helper")
+		c.Check("C10.P1", "fold:threads-result-in-index-order", okFold, ap.Pos(), "one loop over the patches parameter in index order; each step receives the previous result; the last result is returned")
+		c.CheckGuardLoop("C10.P1", "fold:handler-error-aborts", ap, nil, callTo("applyPatch ok", apf))
+		jsonU := c.ExtFn("encoding/json", "Unmarshal")
+		if copyFn != nil && jsonU != nil {
+			c.CheckGuard("C10.P1", "deepCopy:decode-error-propagated", copyFn, nil, callTo("json.Unmarshal of the encoded document", jsonU))
+		} else {
+			c.Check("C10.P1", "deepCopy:decode-error-propagated", false, ap.Pos(), "no JSON round trip of the document found")
+		}
 	}
 	c.Min("C10.P1", 4)
 
@@ -573,10 +633,21 @@ func ascendingFromZero(v ssa.Value) bool {
 	switch idx := ia.Index.(type) {
 	case *ssa.BinOp: // rangeindex: phi(-1, idx) + 1
 		phi, ok := idx.X.(*ssa.Phi)
-		if !ok || idx.Op != token.ADD || !isConst(idx.Y, 1) || len(phi.Edges) != 2 {
+		if !ok || idx.Op != token.ADD || !isConst(idx.Y, 1) || len(phi.Edges) < 2 {
 			return false
 		}
-		return (isConst(phi.Edges[0], -1) && phi.Edges[1] == ssa.Value(idx)) || (isConst(phi.Edges[1], -1) && phi.Edges[0] == ssa.Value(idx))
+		// one entry edge carrying -1; every other edge (the loop's back edges, one per `continue`) carries idx itself
+		nInit := 0
+		for _, e := range phi.Edges {
+			switch {
+			case isConst(e, -1):
+				nInit++
+			case e == ssa.Value(idx):
+			default:
+				return false
+			}
+		}
+		return nInit == 1
 	case *ssa.Phi: // for i := 0; i < n; i++
 		if len(idx.Edges) != 2 {
 			return false
@@ -599,10 +670,11 @@ func (c *Ctx) composerHandlers() map[string]*ssa.Function {
 	if apf == nil {
 		return out
 	}
-	for k, blk := range c.caseTable(apf, nil, func(p string) bool { return strings.Contains(p, ").GetAction(") }) {
-		for _, cl := range callsIn(blk) {
-			if g := cl.Call.StaticCallee(); g != nil && inModule(g) {
-				out[unquote(k)] = g
+	dv := c.dispatch(apf, func(p string) bool { return strings.Contains(p, ").GetAction(") })
+	for k, a := range dv.arms {
+		for _, ac := range c.armCalls(dv, a) {
+			if inModule(ac.callee) {
+				out[unquote(k)] = ac.callee
 				break
 			}
 		}
@@ -1069,4 +1141,79 @@ func (c *Ctx) earlyLoopExits(f *ssa.Function) []string {
 	}
 	sort.Strings(out)
 	return out
+}
+
+// jsonRoundTripOf: v is a fresh value decoded by encoding/json.Unmarshal from encoding/json.Marshal(X) — in f itself, or
+// in a module helper whose success result is such a round trip of one of its parameters. Returns the path of X in f's
+// frame and the function holding the Unmarshal call.
+func (c *Ctx) jsonRoundTripOf(f *ssa.Function, v ssa.Value, env Env, depth int) (string, *ssa.Function, bool) {
+	jsonU := c.ExtFn("encoding/json", "Unmarshal")
+	if jsonU == nil || depth > 2 {
+		return "", nil, false
+	}
+	// through a helper
+	if ex, ok := v.(*ssa.Extract); ok && ex.Index == 0 {
+		if cl, isC := ex.Tuple.(*ssa.Call); isC {
+			if g := cl.Call.StaticCallee(); g != nil && inModule(g) && g.Blocks != nil {
+				srs := successReturns(g)
+				if len(srs) == 1 {
+					return c.jsonRoundTripOf(g, srs[0].Results[0], c.calleeEnv(&cl.Call, g, env), depth+1)
+				}
+			}
+		}
+	}
+	ld, ok := v.(*ssa.UnOp)
+	if !ok || ld.Op != token.MUL {
+		return "", nil, false
+	}
+	al, ok := ld.X.(*ssa.Alloc)
+	if !ok {
+		return "", nil, false
+	}
+	// the only writer of the local is the Unmarshal call
+	for _, r := range *al.Referrers() {
+		if st, isS := r.(*ssa.Store); isS && st.Addr == ssa.Value(al) {
+			if k, isK := st.Val.(*ssa.Const); isK && k.IsNil() {
+				continue
+			}
+			// a fresh, empty map as the decode target is the same as a nil one
+			if mm, isMM := st.Val.(*ssa.MakeMap); isMM {
+				empty := true
+				for _, rr := range *mm.Referrers() {
+					if _, isMU := rr.(*ssa.MapUpdate); isMU {
+						empty = false
+					}
+				}
+				if empty {
+					continue
+				}
+			}
+			return "", nil, false
+		}
+	}
+	return c.jsonRoundTripCellEnv(f, al, env)
+}
+
+// jsonRoundTripCell: the local cell al is filled by json.Unmarshal(json.Marshal(X), &al) in f; returns the path of X.
+func (c *Ctx) jsonRoundTripCell(f *ssa.Function, al *ssa.Alloc) (string, *ssa.Function, bool) {
+	return c.jsonRoundTripCellEnv(f, al, nil)
+}
+
+func (c *Ctx) jsonRoundTripCellEnv(f *ssa.Function, al *ssa.Alloc, env Env) (string, *ssa.Function, bool) {
+	jsonU := c.ExtFn("encoding/json", "Unmarshal")
+	if jsonU == nil {
+		return "", nil, false
+	}
+	for _, u := range callsTo(f, jsonU) {
+		mi, isMI := u.Call.Args[1].(*ssa.MakeInterface)
+		if !isMI || mi.X != ssa.Value(al) {
+			continue
+		}
+		bp := c.Path(u.Call.Args[0], env)
+		const pre = "encoding/json.Marshal("
+		if strings.HasPrefix(bp, pre) && strings.HasSuffix(bp, ")#0") {
+			return bp[len(pre) : len(bp)-3], f, true
+		}
+	}
+	return "", nil, false
 }
